@@ -20,7 +20,7 @@ DEFAULT_OPTS = dict(
     ints=INT_PACKED + INT_ODD, floats=True, char=True, wchar=True, leb=True, void=True, enums=True, bits=True,
     arrays=True, expr=True, null=True, eof=True, pointers=True, nested=True, unions=True, anon=True,
     max_depth=2, max_fields=6, dynamic=True, hazard=True, multidim=True, struct_arrays=True, zero_len=True,
-    mixed_align=False, long_strings=False, null_structs=False, multidim_dyn=False, bits_char=False, bits_odd=False, wide_bits=False,
+    mixed_align=False, long_strings=False, null_structs=False, multidim_dyn=False, anon_nested=False, bits_char=False, bits_odd=False, wide_bits=False,
 )
 
 
@@ -164,6 +164,16 @@ def _elem_type(draw, o, defs, names, depth, for_null=False):
     raise ValueError(c)
 
 
+def _folded_names(t):
+    out = []
+    for f in t["fields"]:
+        if f["name"] is None and f["t"]["k"] == "st":
+            out += _folded_names(f["t"])
+        else:
+            out.append(f["name"])
+    return out
+
+
 @st.composite
 def struct_type(draw, o, defs, names, depth, kind="struct", name=None, top=False):
     nf = draw(st.integers(1, o["max_fields"]))
@@ -221,19 +231,17 @@ def struct_type(draw, o, defs, names, depth, kind="struct", name=None, top=False
             continue
         # anonymous inline member
         if o["anon"] and o["nested"] and depth > 0 and o.get("bits_weight", 3) + 1 <= roll <= o.get("bits_weight", 3) + o.get("anon_weight", 1):
-            sub = opts(**{**o, "anon": False, "hazard": False})
+            sub = opts(**{**o, "anon": bool(o.get("anon_nested")), "anon_nested": False, "hazard": False})
             akind = draw(st.sampled_from(["struct", "union"] if o["unions"] else ["struct"]))
             if akind == "union":
                 sub = opts(**{**sub, "dynamic": False, "bits": False, "void": False})
-            inner = draw(struct_type(sub, defs, names, depth - 1, kind=akind, name=None))
-            # folded names must be unique in the parent
-            clash = False
-            for f in inner["fields"]:
-                if f["name"] in used and f["name"] != "_":
-                    clash = True
-            if not clash and all(f["name"] for f in inner["fields"]):
-                for f in inner["fields"]:
-                    used.add(f["name"])
+            inner = draw(struct_type(sub, defs, names, depth - 1 if not o.get("anon_nested") else max(depth - 1, 1), kind=akind, name=None))
+            # folded names (also those of an anonymous member inside the anonymous member) must be unique in the parent
+            folded = _folded_names(inner)
+            clash = any((nm in used and nm != "_") or nm is None for nm in folded) or len(set(folded)) != len(folded)
+            if not clash:
+                for nm in folded:
+                    used.add(nm)
                 fields.append({"name": None, "t": inner, "bits": None})
                 continue
         if o.get("null_structs") and o["null"] and o["arrays"] and o["nested"] and depth > 0 and kind == "struct" and draw(st.integers(0, 11)) == 0:
